@@ -56,6 +56,7 @@ def run(ctx):
                        "the success return, and a dispatch-table agreement check.")
     ctx.trust("snprintf returns the untruncated length; strtol/inet_pton/inet_ntop per their man pages")
     eng = B.Engine(P)
+    eng.ptr_index_stores = True          # `proto[proto_len] = 0` through the (buffer, capacity) parameters of the parsers
     eng.narrow_scope = lambda f: f.file.endswith("core/xcm_addr.c")
     roots = [f for fl in FILES for f in P.fns_in(fl) if not f.static]
     global FILES_FN
@@ -358,3 +359,37 @@ def run(ctx):
                                  "other function accepts (make, parse, server, connect) is rejected here" % (f.name, d.name, cap, need), loc=f.loc(c))
     if nsite < 4:
         raise Broken("C12.R6: only %d internal call sites with a constant capacity" % nsite)
+
+    # ------------------------------------------------------------------ R7
+    # "accept only the documented syntax": no white space anywhere in an address.  White space is what isspace() says
+    # (space, \\t, \\n, \\v, \\f, \\r) - the predicate that guards every parser either uses isspace on every character or
+    # searches for a literal set that holds all six
+    r7 = ctx.rule("C12.R7", "the white-space test in front of every parser covers all six C white-space characters")
+    guard = None
+    pap = P.fn("proto_addr_parse")
+    for b, cond in C.cond_blocks(pap):
+        cn = pap.sn(C.cond_atom(pap, cond, True)[0])
+        if cn["k"] == "call":
+            for d in P.callees(pap, cn["id"])[0]:
+                if d.static and len(d.params) == 1 and "char" in (d.params[0].get("t") or "") and (d.ret or "").strip() in ("_Bool", "bool", "int"):
+                    guard = d
+    if guard is None:
+        raise Broken("C12.R7: the white-space predicate guarding proto_addr_parse was not found")
+    r7.instance(guard.qname)
+    WS = set(" \\t\\n\\v\\f\\r".encode().decode("unicode_escape"))
+    uses_isspace = any((n.get("mac") or n.get("imac")) == "isspace" or (n["k"] == "call" and n.get("callee") in ("isspace", "__ctype_b_loc")) for n in guard.nodes.values())
+    sets = []
+    for c in guard.calls():
+        n = guard.nodes[c]
+        if n.get("callee") in ("strpbrk", "strcspn", "strchr", "strspn") and len(n["args"]) > 1:
+            a = guard.sn(n["args"][1])
+            if a["k"] == "str":
+                sets.append(set(a.get("v") or ""))
+    if uses_isspace and not sets:
+        r7.ok("%s classifies every character with isspace()" % guard.qname, "library predicate")
+    elif sets and all(WS <= s_ for s_ in sets):
+        r7.ok("%s searches for a set that holds all six white-space characters" % guard.qname, "literal set")
+    else:
+        missing = sorted(repr(ch) for s_ in sets for ch in WS - s_) if sets else ["(no isspace, no literal set)"]
+        r7.violation("%s:white-space-set" % guard.name, "%s does not reject %s: addresses containing these characters are accepted by the parsers, the validity predicate and "
+                     "xcm_server/xcm_connect" % (guard.name, ", ".join(missing)), loc=guard.file)
